@@ -19,7 +19,7 @@ def run(ctx):
     r = adapters.run_adapter(fns.Spike(), cases, rng)
     return adapters.merge(
         [r, cc.layout_block(fns.Spike(), cases, tier, rng), cc.reuse_block(fns.Spike(), cases, tier, rng),
-         cc.carrier_block(fns.Spike(), cases, tier, rng)],
+         cc.carrier_block(fns.Spike(), cases, tier, rng), cc.fine_block(fns.Spike(), cases, tier, rng)],
         rule="all series of length<=3 (thorough 4) over {missing,0,1,2,5/2,4} x both methods x thresholds "
              "{None,0,1,2}^2 (incl. fail<suspect, d exactly on a threshold); random series length 4..9; bad method names. "
              "non-trivial = >=2 distinct flags or raises",
